@@ -82,8 +82,10 @@ the `_loadTexts` restatements keep `AugArgsPlain` only), and proves the error-se
 pending augment entries carry errors of their own (`phaseStart_keysUnique`,
 `augment_error_set_order_independent_processAll`).
 Outside the claim, as in the property text: the implicit case of a shorthand choice member as
-target (such an augment is applied by the leftover pass after FixChoice; (f) counts it as
-applied there) and uses-augment.
+target (such an augment is applied by the stage after FixChoice — since the repair of D67 a fixpoint:
+the loop is retried over the modules that still hold pending augments, FixChoice after every
+productive round, then one reporting sweep `Augment(true)`; (f) counts it as applied there:
+second trace of `phaseR`) and uses-augment.
 -/
 namespace Goyang.Props.C07
 open Goyang.Model Goyang.Spec.Augment
@@ -119,7 +121,8 @@ theorem model_loop_eq (reg : Registry) (fuel : Nat) (mods : Array Nat) (s : PSta
       (loopMods (Res.ofReg reg) fuel mods s, loopState (Res.ofReg reg) fuel mods s) :=
   augmentLoop_eq reg fuel mods s [] hp
 
-/-- Likewise the whole augment part of `Process` (loop, FixChoice, leftover pass, FixChoice). -/
+/-- Likewise the whole augment part of `Process` (loop, FixChoice, retry rounds with FixChoice,
+reporting sweep, FixChoice). -/
 theorem model_phase_eq (reg : Registry) (order : List Nat) (fuel : Nat) (s : PState) (hp : PlainPending reg s) :
     augmentPhase reg order fuel s = (phaseR (Res.ofReg reg) order fuel s).1 :=
   augmentPhase_eq reg order fuel s hp
@@ -522,8 +525,9 @@ theorem visible_error_swept (f : Forest) (er : Err) (h : FVisErr f er) : er ∈ 
   fVisErr_allErrs h
 
 /-- On the parametrised model of the whole augment part of `Process`: every augment pending at
-the start is applied by the loop, or applied by the leftover pass (which happens only for targets
-that FixChoice creates: implicit cases — outside the claim), or its `augment-not-found` error is
+the start is applied by the loop, or applied by the stage after FixChoice — a retry round or the
+reporting sweep, second trace of `phaseR` — (which happens only for targets that FixChoice creates:
+implicit cases, and what augments applied there create in turn — outside the claim), or its `augment-not-found` error is
 among the errors swept at the end; and an application of the loop that collides leaves a
 `duplicate-node` error among them. -/
 theorem augment_reported_phase (R : Res) (order : List Nat) (fuel : Nat) (s : PState) (hn : NodupPending s)
@@ -543,7 +547,7 @@ identities, typedefs or conversion).  From that state — provided what reaches 
 formed (`PhaseInput`: plain augment paths, no augment entry twice, the tree of every module with
 augments present, one row per tree; that the loop's module order mentions every tree with augments
 is proved: `phaseStart_cover`) — every pending augment is applied (by the loop, or by the
-leftover pass) or `processAll` returns errors, and a colliding application makes `processAll`
+stage after FixChoice) or `processAll` returns errors, and a colliding application makes `processAll`
 return errors. -/
 theorem augment_reported (reg : Registry) (opts : Opts) (plug : Plug) :
     (phaseStart reg opts plug = none → ∃ errs, errs ≠ [] ∧ (processAll reg opts plug).errors = canonErrs errs) ∧
